@@ -490,7 +490,13 @@ mod imp {
                 }
                 5 => {
                     let e = e_bool(&s, &mut r, d);
-                    format!("#let {} = {}", s.fresh(Ty::Bool), e)
+                    if r.chance(1, 3) {
+                        // a closure whose body is a `not` over a comparison chain, applied at once
+                        let a = e_int(&s, &mut r, 1);
+                        format!("#let {} = (p => not p + {} == {} or not {})({})", s.fresh(Ty::Bool), a, r.below(50), e, r.below(9))
+                    } else {
+                        format!("#let {} = {}", s.fresh(Ty::Bool), e)
+                    }
                 }
                 6 => {
                     let e = e_content(&s, &mut r, d);
@@ -502,9 +508,13 @@ mod imp {
                     inner.vars.push(("p".into(), Ty::Int));
                     let body = e_int(&inner, &mut r, d);
                     let name = s.fresh(Ty::Fun);
-                    match r.below(3) {
+                    match r.below(6) {
                         0 => format!("#let {}(p) = {}", name, body),
                         1 => format!("#let {} = p => {}", name, body),
+                        // bodies that get *optional* braces when they do not fit (return / assignment-like / not)
+                        2 => format!("#let {} = p => return {} + {}", name, body, e_int(&inner, &mut r, 1)),
+                        3 => format!("#let {}(p) = return {} * {} - {}", name, e_int(&inner, &mut r, 1), e_int(&inner, &mut r, 1), body),
+                        4 => format!("#let {} = p => if not p == {} and not {} {{ {} }} else {{ p }}", name, r.below(9), e_bool(&inner, &mut r, 1), body),
                         _ => format!("#let {}(p, k: 2) = {{\n  let t = p * k\n  t + {}\n}}", name, body),
                     }
                 }
